@@ -11,7 +11,10 @@ Case kinds (each JSON-replayable):
              through marker images (no patching of the crop code; np.random draws are recorded)
   std        preprocess_image_tff(distort=False) vs tf.image.per_image_standardization and a float64 reference
   domain     emnist.domain_id / preprocess_client
-  rowindep   packaged models: a row alone vs the same row inside a batch (supporting evidence, unproved)
+  rowindep   packaged models: a row alone vs the same row inside a batch / next to one other row: predictions,
+             per-example eval statistics and per-example TRAINING loss (supporting evidence, unproved)
+  lmloss     train_loss of the packaged language models on hand-built logits: row independence by the oracle,
+             values against the translated row-wise loss inside Coq
   tasks      training.tasks.get_task wiring (datasets stubbed in memory)
 The oracle never calls a fedjax helper: expectations are recomputed from the property's wording."""
 import contextlib
@@ -160,18 +163,34 @@ def _gen_domain(tier, rng):
     yield {'kind': 'domain', 'id': bad.hex()}
 
 
-ROW_MODELS = ['emnist_conv', 'emnist_dense', 'emnist_logistic', 'cifar100_logistic', 'shakespeare_lstm', 'stackoverflow_lstm']
+ROW_MODELS = ['emnist_conv', 'emnist_dense', 'emnist_logistic', 'cifar100_logistic', 'shakespeare_lstm', 'stackoverflow_lstm',
+              'stackoverflow_lstm_scaled']
+
+
+def _gen_lmloss(tier, rng):
+  n = {'quick': 16, 'thorough': 80, 'search': 40}[tier]
+  for i in range(n):
+    B, T = rng.choice([1, 2, 3, 4]), rng.choice([1, 2, 3, 5])
+    # first PAD position per row: full rows (T), partially padded rows, all-PAD rows (0), mixed in one batch
+    pads = [rng.choice([T, T, rng.randrange(0, T + 1), 0 if rng.random() < 0.2 else T - 1]) for _ in range(B)]
+    if i % 4 == 0 and B >= 2:
+      pads[0], pads[1] = T, max(0, T - 2)
+    m = ('shakespeare', 'stackoverflow')[i % 2]
+    yield {'kind': 'lmloss', 'model': m, 'seed': rng.randrange(2 ** 31), 'B': B, 'T': T, 'pad_from': pads,
+           'el': (None if m == 'shakespeare' else [None, 13.3, 2.0][i // 2 % 3])}
 
 
 def generate(tier, rng):
   yield {'kind': 'consts'}
+  for c in _gen_lmloss(tier, rng):
+    yield c
   for g in (_gen_shake, _gen_tok, _gen_crops, _gen_std, _gen_domain):
     for c in g(tier, rng):
       yield c
   if tier != 'search':
     for m in ROW_MODELS:
       for rep in range(1 if tier == 'quick' else 3):
-        yield {'kind': 'rowindep', 'model': m, 'seed': rng.randrange(2 ** 31), 'batch': rng.choice([2, 3, 5])}
+        yield {'kind': 'rowindep', 'model': m, 'seed': rng.randrange(2 ** 31), 'batch': rng.choice([3, 4, 5])}
     for t in ('SHAKESPEARE_CHARACTER', 'STACKOVERFLOW_WORD', 'CIFAR100_LOGISTIC'):
       yield {'kind': 'tasks', 'task': t}
 
@@ -553,6 +572,8 @@ def _row_model(name):
     return models.cifar100.create_logistic_model(), 'img24'
   if name == 'shakespeare_lstm':
     return models.shakespeare.create_lstm_model(lstm_hidden_size=8, embed_size=4, lstm_num_layers=2), 'seq90'
+  if name == 'stackoverflow_lstm_scaled':
+    return models.stackoverflow.create_lstm_model(vocab_size=20, lstm_hidden_size=8, embed_size=4, expected_length=13.3), 'seq24'
   return models.stackoverflow.create_lstm_model(vocab_size=20, lstm_hidden_size=8, embed_size=4), 'seq24'
 
 
@@ -571,8 +592,10 @@ def _run_rowindep(case):
     T = 6
     x = rng.randint(3, V, size=(B, T)).astype(np.int32)
     y = rng.randint(3, V, size=(B, T)).astype(np.int32)
-    x[0, 3:] = 0
-    y[0, 3:] = 0          # one padded row
+    starts = [3, T, 1, 0, T - 1, 2]      # first PAD position per row: full rows mixed with padded ones, one all-PAD row
+    for r in range(B):
+      x[r, starts[r % len(starts)]:] = 0
+      y[r, starts[r % len(starts)]:] = 0
     batch = {'x': x, 'y': y}
   params = model.init(jax.random.PRNGKey(case['seed'] % 1000))
   full = np.asarray(model.apply_for_eval(params, batch), np.float64)
@@ -596,8 +619,69 @@ def _run_rowindep(case):
           a = np.asarray(getattr(st, f), np.float64).reshape(-1)[0]
           b = np.asarray(getattr(per_row, f), np.float64).reshape(B, -1)[i, 0]
           mworst = max(mworst, abs(float(a) - float(b)) / (1.0 + abs(float(b))))
+  # per-example TRAINING loss: row in the batch vs alone vs next to one other row
+  tl_full = np.asarray(model.train_loss(batch, jnp.asarray(full, jnp.float32)), np.float64).reshape(-1)
+  lworst, lfinite = 0.0, bool(np.all(np.isfinite(tl_full))) and tl_full.shape == (B,)
+  if tl_full.shape == (B,):
+    for i in range(B):
+      one = {k: v[i:i + 1] for k, v in batch.items()}
+      a = np.asarray(model.train_loss(one, jnp.asarray(alones[i])), np.float64).reshape(-1)
+      j = (i + 1) % B
+      rows = np.array([j, i])
+      two = {k: v[rows] for k, v in batch.items()}
+      p2 = model.apply_for_eval(params, two)
+      b2 = np.asarray(model.train_loss(two, p2), np.float64).reshape(-1)
+      lfinite = lfinite and bool(np.all(np.isfinite(a))) and bool(np.all(np.isfinite(b2)))
+      if lfinite:
+        lworst = max(lworst, abs(float(a[0]) - float(tl_full[i])), abs(float(b2[1]) - float(tl_full[i])))
+    if case['model'] != 'emnist_conv' and lfinite:     # no dropout: the training forward pass is deterministic
+      key = jax.random.PRNGKey(1)
+      tf_full = np.asarray(model.train_loss(batch, model.apply_for_train(params, batch, key)), np.float64).reshape(-1)
+      for i in range(B):
+        one = {k: v[i:i + 1] for k, v in batch.items()}
+        a = np.asarray(model.train_loss(one, model.apply_for_train(params, one, key)), np.float64).reshape(-1)
+        lfinite = lfinite and bool(np.isfinite(a[0])) and bool(np.isfinite(tf_full[i]))
+        if lfinite:
+          lworst = max(lworst, abs(float(a[0]) - float(tf_full[i])))
   return {'status': 'ok', 'worst': worst, 'metric_worst': mworst, 'scale': float(np.max(np.abs(full))),
-          'finite': bool(np.all(np.isfinite(full)))}
+          'finite': bool(np.all(np.isfinite(full))), 'loss_shape_ok': tl_full.shape == (B,), 'loss_worst': lworst,
+          'loss_finite': lfinite, 'loss_scale': float(np.max(np.abs(tl_full))) if lfinite and tl_full.size else 0.0}
+
+
+def _lmloss_batch(case):
+  rng = np.random.RandomState(case['seed'] % (2 ** 32))
+  B, T = case['B'], case['T']
+  V = 90 if case['model'] == 'shakespeare' else 12
+  y = rng.randint(1, V, size=(B, T)).astype(np.int32)
+  for r, st in enumerate(case['pad_from']):
+    y[r, st:] = 0
+  logits = (rng.randint(-8, 9, size=(B, T, V)) / 4.0).astype(np.float32)
+  return y, logits
+
+
+def _run_lmloss(case):
+  import jax.numpy as jnp
+  from fedjax import models
+  if case['model'] == 'shakespeare':
+    model = _cached('lm_sh', lambda: models.shakespeare.create_lstm_model(lstm_hidden_size=2, embed_size=2, lstm_num_layers=1))
+  else:
+    el = case.get('el')
+    model = _cached(('lm_so', el), lambda: models.stackoverflow.create_lstm_model(vocab_size=8, lstm_hidden_size=2, embed_size=2,
+                                                                                   expected_length=el))
+  y, logits = _lmloss_batch(case)
+  batch = {'x': y.copy(), 'y': y}
+  full = np.asarray(model.train_loss(batch, jnp.asarray(logits)), np.float64).reshape(-1)
+  alone, paired = [], []
+  for i in range(len(y)):
+    alone.append(float(np.asarray(model.train_loss({'x': y[i:i + 1], 'y': y[i:i + 1]}, jnp.asarray(logits[i:i + 1]))).reshape(-1)[0]))
+    rows = np.array([(i + 1) % len(y), i])
+    paired.append(float(np.asarray(model.train_loss({'x': y[rows], 'y': y[rows]}, jnp.asarray(logits[rows]))).reshape(-1)[1]))
+  # per-token cross entropy, float64, from the logits alone
+  l64 = logits.astype(np.float64)
+  lse = np.log(np.exp(l64 - l64.max(-1, keepdims=True)).sum(-1)) + l64.max(-1)
+  ce = lse - np.take_along_axis(l64, y[..., None].astype(np.int64), axis=-1)[..., 0]
+  return {'status': 'ok', 'loss': [float(v) for v in full], 'alone': alone, 'paired': paired, 'y': y.tolist(),
+          'ce': [[str(Fraction(float(np.float32(v)))) for v in row] for row in ce], 'shape_ok': full.shape == (len(y),)}
 
 
 def _run_tasks(case):
@@ -679,6 +763,8 @@ def run(case):
       return _run_domain(case)
     if k == 'rowindep':
       return _run_rowindep(case)
+    if k == 'lmloss':
+      return _run_lmloss(case)
     return _run_tasks(case)
 
 
@@ -899,9 +985,21 @@ def oracle(case, obs):
     return _oracle_std(case, obs)
   if k == 'domain':
     return _oracle_domain(case, obs)
+  if k == 'lmloss':
+    if not obs['shape_ok'] or not all(math.isfinite(v) for v in obs['loss'] + obs['alone'] + obs['paired']):
+      return [(f'trainloss-rowdep-{case["model"]}', 'per-example training loss is not one finite value per row (alone or inside a batch)')]
+    for i, (a, b, c) in enumerate(zip(obs['loss'], obs['alone'], obs['paired'])):
+      if abs(a - b) > 1e-5 * (1 + abs(b)) or abs(c - b) > 1e-5 * (1 + abs(b)):
+        return [(f'trainloss-rowdep-{case["model"]}',
+                 f'row {i}: training loss {b} alone, {a} inside the batch, {c} next to one other row (targets {obs["y"]})')]
+    return []
   if k == 'rowindep':
     if not obs['finite']:
       return [('rowindep-nonfinite', 'model output is not finite')]
+    if not obs.get('loss_shape_ok', True) or not obs.get('loss_finite', True):
+      return [(f'rowindep-trainloss-{case["model"]}', 'per-example training loss is not one finite value per row (row alone or inside a batch)')]
+    if obs.get('loss_worst', 0.0) > 1e-5 * (1 + obs.get('loss_scale', 0.0)):
+      return [(f'rowindep-trainloss-{case["model"]}', f'the per-example training loss of a row changes by {obs["loss_worst"]} with the other rows of the batch')]
     if obs['worst'] > 1e-5 * (1 + obs['scale']) or obs['metric_worst'] > 1e-5:
       return [(f'rowindep-{case["model"]}', f'a row scored alone differs from the same row inside a batch by {obs["worst"]} (metrics {obs["metric_worst"]})')]
     return []
@@ -986,6 +1084,13 @@ def encode(case, obs):
       return None
     c = f'KStd {obs["N"]} {obs["S1"]} {obs["S2"]} {_q(obs["s"])}'
     o = 'OStd ' + fw.clist([f'({v}, {_q(q)})' for v, q in obs['samples']])
+  elif k == 'lmloss':
+    if not obs['shape_ok'] or not all(math.isfinite(v) for v in obs['loss']):
+      return None
+    rows = fw.clist([f'({fw.clist([_q(v) for v in cr])}, {_zl(yr)})' for cr, yr in zip(obs['ce'], obs['y'])])
+    el = 'None' if case.get('el') is None else f'(Some {_q(Fraction(float(case["el"])))})'
+    c = f'KLoss {fw.cbool(case["model"] == "shakespeare")} {el} {rows}'
+    o = 'OLoss ' + fw.clist([_q(Fraction(v)) for v in obs['loss']])
   elif k == 'domain':
     c = f'KDomain {_zl(list(bytes.fromhex(case["id"])))}'
     o = 'ORaise' if obs['status'] != 'ok' else f'OId {obs["d"]}'
